@@ -518,6 +518,8 @@ def spec_distribution(chk, exe_ops, impl):
 def run(chk):
     from translator import gen_limits
     gen_limits.main([])          # Gen/Limits.lean: constants and limits read from the current source
+    chk.trusted.append("translator/gen_limits.py (constants / limits of the source -> Gen/Limits.lean: compiled probe + "
+                       "preprocessed function bodies at named anchors; tied to the model numerals by Props/Limits/C14.lean)")
     problems = chk.prove(MODULES, AUDIT, want_leanchecker=(chk.tier == "thorough"))
     exe, err = core.build_harness(HARNESS, extra=HARNESS_EXTRA)
     if exe is None:
